@@ -1437,3 +1437,18 @@ Lemma wit_names_results :
   (exists r, den_top wit_table wit_names_map = Ok r /\
      printed_names (rsch r) = [[116; 46; 97]; [97; 95; 49]; [99; 111; 108; 95; 50]; [97; 95; 50]; [98]; [97]]).
 Proof. repeat split; try (vm_compute; reflexivity); eexists; split; vm_compute; reflexivity. Qed.
+
+(* SELECT key_1, count( * ) AS c FROM (SELECT a AS k, a + 1, b AS v FROM t GROUP BY a, a + 1, b) x GROUP BY key_1, v *)
+Definition wit_key_name : top :=
+  ([], Q false [IExpr (ECol None [107; 101; 121; 95; 49]) None; IAgg ACount false (ELit (VBool true)) (Some [99])]
+         (SSub (Q false [IExpr (ECol None [97]) (Some [107]); IExpr (EBin BAdd (ECol None [97]) (ELit (VInt 1))) None;
+                         IExpr (ECol None [98]) (Some [118])]
+                  (STable [116] [116]) None [ECol None [97]; EBin BAdd (ECol None [97]) (ELit (VInt 1)); ECol None [98]] [] None) [120])
+         None [ECol None [107; 101; 121; 95; 49]; ECol None [118]] [] None).
+
+Lemma pinned_key_name :
+  in_fragment wit_key_name = true /\ plain_db wit_table = true /\
+  result_equivb false (exec_top_pinned_names wit_table wit_key_name) (den_top wit_table wit_key_name) = false /\
+  exec_top wit_table wit_key_name = den_top wit_table wit_key_name /\
+  exists r, den_top wit_table wit_key_name = Ok r /\ length (rrows r) = 5%nat.
+Proof. repeat split; try (vm_compute; reflexivity). eexists. split; vm_compute; reflexivity. Qed.
